@@ -298,10 +298,14 @@ func (c *clientHello) parseExtensions() error {
 				if !serverNameList.ReadUint8(&nameType) {
 					return fmt.Errorf("%w: name type", ErrDecodeError)
 				}
-				if nameType != 0 { // host name
-					return fmt.Errorf("%w: invalid nametype 0x%x", ErrIllegalParameter, nameType)
+				if !serverNameList.ReadUint16LengthPrefixed(&hostName) {
+					return fmt.Errorf("%w: host name", ErrDecodeError)
 				}
-				if !serverNameList.ReadUint16LengthPrefixed(&hostName) || c.ServerName != "" {
+				if nameType != 0 {
+					// Not a host name. Like crypto/tls, ignore it.
+					continue
+				}
+				if c.ServerName != "" {
 					return fmt.Errorf("%w: host name", ErrDecodeError)
 				}
 				c.ServerName = string(hostName)
